@@ -524,6 +524,43 @@ fn derive_call_shape(def: &CallDef, symbol_table: &mut BTreeMap<Rc<str>, Shape>)
     }
 }
 
+/// What a map or reduce callback returns, as seen from outside the callback.
+/// The callback's return shape can name its own arguments as holes. Left in
+/// place they would be taken for the caller's bindings of the same name, so
+/// each is replaced with what the callback is handed: the accumulator of a
+/// reduce, then the elements of the target as far as we know them.
+fn callback_ret(fdef: &FuncShapeDef, acc: Option<&Shape>, target: &Shape, pos: &Position) -> Shape {
+    let any = || {
+        Shape::Narrowed(NarrowedShape {
+            pos: pos.clone(),
+            types: NarrowingShape::Any,
+        })
+    };
+    let mut handed = Vec::new();
+    if let Some(acc_shape) = acc {
+        handed.push(acc_shape.clone());
+    }
+    match target {
+        // one argument: the element
+        Shape::List(elems) => handed.push(Shape::Narrowed(elems.clone())),
+        // one argument: a character
+        Shape::Str(_) => handed.push(Shape::Str(pos.clone())),
+        // two arguments: the field's name and its value
+        Shape::Tuple(_) => {
+            handed.push(Shape::Str(pos.clone()));
+            handed.push(any());
+        }
+        _ => {}
+    }
+    let actuals = fdef
+        .arg_order
+        .iter()
+        .enumerate()
+        .map(|(i, name)| (name.clone(), handed.get(i).cloned().unwrap_or_else(any)))
+        .collect();
+    bind_arg_holes(fdef.ret.as_ref(), &actuals)
+}
+
 fn derive_func_op_shape(def: &FuncOpDef, symbol_table: &mut BTreeMap<Rc<str>, Shape>) -> Shape {
     match def {
         FuncOpDef::Map(MapFilterOpDef { func, target, pos }) => {
@@ -559,7 +596,7 @@ fn derive_func_op_shape(def: &FuncOpDef, symbol_table: &mut BTreeMap<Rc<str>, Sh
             // Return type is List(func.ret)
             match &func_shape {
                 Shape::Func(fdef) => Shape::List(NarrowedShape::new_with_pos(
-                    vec![fdef.ret.as_ref().clone()],
+                    vec![callback_ret(fdef, None, &target_shape, pos)],
                     pos.clone(),
                 )),
                 _ => Shape::List(NarrowedShape {
@@ -622,33 +659,26 @@ fn derive_func_op_shape(def: &FuncOpDef, symbol_table: &mut BTreeMap<Rc<str>, Sh
                 }
             }
             // Return type is acc's shape narrowed against func.ret
-            match &func_shape {
+            let ret = match &func_shape {
+                Shape::Func(fdef) => callback_ret(fdef, Some(&acc_shape), &target_shape, pos),
+                _ => return acc_shape,
+            };
+            match &ret {
                 // Nothing is known about what the callback returns.
-                Shape::Func(fdef)
-                    if matches!(
-                        fdef.ret.as_ref(),
-                        Shape::Narrowed(NarrowedShape {
-                            types: NarrowingShape::Any,
-                            ..
-                        })
-                    ) =>
-                {
-                    fdef.ret.as_ref().clone().with_pos(pos.clone())
-                }
-                Shape::Func(fdef) => {
-                    let narrowed = acc_shape.narrow(&fdef.ret, symbol_table);
-                    match narrowed {
-                        // The accumulator comes back as it is for an empty
-                        // target, anything else yields what the callback
-                        // returned last. Either is possible when they differ.
-                        Shape::TypeErr(_, _) => Shape::Narrowed(NarrowedShape::new_with_pos(
-                            vec![acc_shape, fdef.ret.as_ref().clone()],
-                            pos.clone(),
-                        )),
-                        other => other,
-                    }
-                }
-                _ => acc_shape,
+                Shape::Narrowed(NarrowedShape {
+                    types: NarrowingShape::Any,
+                    ..
+                }) => ret.with_pos(pos.clone()),
+                _ => match acc_shape.narrow(&ret, symbol_table) {
+                    // The accumulator comes back as it is for an empty
+                    // target, anything else yields what the callback
+                    // returned last. Either is possible when they differ.
+                    Shape::TypeErr(_, _) => Shape::Narrowed(NarrowedShape::new_with_pos(
+                        vec![acc_shape, ret],
+                        pos.clone(),
+                    )),
+                    other => other,
+                },
             }
         }
     }
